@@ -18,7 +18,7 @@ FormOf(way) == IF way = "json_str" THEN "str" ELSE "obj"
 RowClass(r) == IF r.way \in {"json", "json_str"} THEN ClassOf(r.v, FormOf(r.way)) ELSE "plain"
 RowBad(r) == ~(r.ok /\ r.back = r.v /\ r.eq /\ r.type /\ r.hash /\ r.tree)
 Clause(r) == IF ~r.ok THEN "raises" ELSE IF r.back # r.v THEN "value" ELSE IF ~r.eq THEN "eq"
-             ELSE IF ~r.type THEN "type" ELSE IF ~r.hash THEN "hash" ELSE "tree"
+             ELSE IF ~r.type THEN "type" ELSE IF ~r.hash THEN r.hashwhy ELSE "tree"
 Sample(S) == LET q == SetToSeq(S) IN SubSeq(q, 1, IF Len(q) < 5 THEN Len(q) ELSE 5)
 Ways == {"json", "json_str", "pickle", "deepcopy"}
 Laws(u) ==
